@@ -1,6 +1,6 @@
 /-
 Memory footprint of whole executions: dispatch, `step`, CHECKPREDICATE, `run`, the initial
-pushes of `Verify` — all change the memory only through `fresh` and `append`.
+pushes of `Verify` — all change the memory only through `fresh`.
 -/
 import BytomModel.Lemmas.VMMem
 import BytomModel.Model.VM.Run
